@@ -466,28 +466,38 @@ def qcow2_snapshots(rng, ctx, nsnap: int = 2, ext: bool = False):
     cb = 14 if ext else rng.choice([9, 10])
     cs = 1 << cb
     ncl = rng.randrange(2, 40)
+    if not ext and rng.random() < 0.5:
+        ncl = rng.randrange(70, 400)  # several L2 tables, so that a snapshot's L1 table can be shorter than the active one
     size = ncl * cs
     views = []
     for i in range(nsnap + 1):
         kinds = [rng.choice("NZUCSu" if ext else "NZzUC") for _ in range(ncl)]
-        if i > 0 and rng.random() < 0.4:
+        if i > 0 and rng.random() < (0.7 if ncl >= 70 else 0.4):
             # a snapshot from when the disk was smaller: nothing mapped in the tail
-            cut = rng.randrange(1, ncl + 1)
+            cut = rng.randrange(1, ncl // 2 if ncl >= 70 else ncl + 1)
             kinds = kinds[:cut] + ["U"] * (ncl - cut)
         views.append(wq.make_view(rng, size=size, cluster_bits=cb, kinds=kinds, extl2=ext, tag=rng.getrandbits(48)))
     metas = [{"id": str(i + 1).encode(), "name": f"snap {i}".encode() * rng.randrange(1, 3), "extra_size": rng.choice([0, 16, 24, 32, 40])} for i in range(nsnap)]
     # some images name a backing file that the caller explicitly opts out of: the active image and every snapshot view
     # then read zeros below their own clusters
     optout = rng.random() < 0.3
+    backed = not optout and rng.random() < (0.8 if ncl >= 70 else 0.4)
     img, _, meta = wq.build(rng, cluster_bits=cb, size=size, views=views, version=3, extl2=ext, placement="shuffle", snapshots_meta=metas, tuned_frac=0.1,
-                            backing_name=b"base image.qcow2" if optout else None, snap_short_l1=rng.random() < 0.5)
+                            backing_name=b"base image.qcow2" if (optout or backed) else None, snap_short_l1=rng.random() < 0.7)
+    below = []
     if optout:
         from dissect.hypervisor.disk.qcow2 import ALLOW_NO_BACKING_FILE
 
         q = QCow2(as_handle(img.to_bytes()), backing_file=ALLOW_NO_BACKING_FILE)
+    elif backed:
+        # the image has a (raw) backing file: whatever a view does not map itself - including everything beyond the end
+        # of a snapshot's shorter L1 table - comes from there
+        braw = hashlib.shake_128(rng.getrandbits(64).to_bytes(8, "little")).digest(size)
+        q = QCow2(as_handle(img.to_bytes()), backing_file=as_handle(braw))
+        below = [RawLayer(braw)]
     else:
         q = QCow2(as_handle(img.to_bytes()))
-    return q, [Model(size, [v.layer]) for v in views], size
+    return q, [Model(size, [v.layer] + below) for v in views], size
 
 
 # --------------------------------------------------------------------------- VDI
